@@ -179,6 +179,12 @@ impl TypeInfoImpl {
                 StaticLifetimesReplace.visit_type_mut(&mut ty);
 
                 let type_name = clean_type_string(&quote!(#ty).to_string());
+                // A field marked `#[codec(encoded_as = "T")]` is encoded as `T`, so that is the
+                // type which describes its bytes; the type name stays the declared one.
+                if let Some(mut encoded_as) = utils::maybe_encoded_as(f) {
+                    StaticLifetimesReplace.visit_type_mut(&mut encoded_as);
+                    ty = encoded_as;
+                }
                 let docs = self.generate_docs(&f.attrs);
                 let type_of_method = if utils::is_compact(f) {
                     quote!(compact)
